@@ -588,6 +588,11 @@ func (res *Response) flush(conn io.Writer) error {
 		}
 		pdata = mempool.AppendString(pdata, "0\r\n")
 		for k, v := range res.trailer {
+			// a trailer value is usually set after the body has been written,
+			// i.e. after the head was encoded.
+			if nv := res.header.Get(k); nv != "" {
+				v = nv
+			}
 			pdata = mempool.AppendString(pdata, k)
 			pdata = mempool.AppendString(pdata, ": ")
 			pdata = mempool.AppendString(pdata, v)
